@@ -5,6 +5,8 @@
 //          destruction / trace::Scope push and pop in arbitrary order, deep enough to cross the stack's reallocations;
 //          model = vector of context identities; GetCurrent() and Tracer::GetCurrentSpan() are compared after every op.
 //  part 2  sequential two-thread isolation check (threads run to completion one after the other: deterministic).
+//  part 3  DEEP stacks (up to 65 / 128 frames) with a shaped enumeration: attach N, unwind along several plans (newest
+//          first, one token out of order, pop to a depth / re-grow / unwind), model compared after every single step.
 #include <algorithm>
 #include <map>
 #include <memory>
@@ -507,6 +509,161 @@ void run_threads(vf::Ctx &c) {
                     leave_attached ? "first leaves them attached" : "all detached"));
 }
 
+// ==================================================================================================
+// part 3: DEEP stacks, shaped enumeration (growth and any shrink / re-growth path of the stack's storage)
+// ==================================================================================================
+// The full-alphabet exploration of part 1 is bounded by its total operation count; this part reaches stack depths up
+// to 65 (thorough 128) with a fixed shape: attach N frames, then unwind along one of several plans, comparing
+// GetCurrent / GetCurrentSpan / visible values with the model after EVERY attach and EVERY detach, and Detach's
+// return value where the statement fixes it.
+const std::vector<int> &deep_sizes(bool thorough) {
+  static std::vector<int> q, t;
+  if (q.empty()) {
+    for (int n = 1; n <= 16; ++n) q.push_back(n);
+    for (int n : {31, 33, 65}) q.push_back(n);
+    for (int n = 1; n <= 34; ++n) t.push_back(n);
+    for (int n : {62, 63, 64, 65, 126, 127, 128}) t.push_back(n);
+  }
+  return thorough ? t : q;
+}
+
+void run_deep(vf::Ctx &c) {
+  const std::vector<int> &sizes = deep_sizes(c.thorough());
+  const int N = sizes[c.pick("deep-n", (int)sizes.size())];
+  const int variant = c.pick("deep-variant", 3);  // 0 distinct contexts, 1 every 3rd attach re-attaches an earlier context, 2 trace::Scope
+  const int by = variant == 2 ? 1 : c.pick("deep-unwind-by", 2);  // 0 Detach(token), token kept alive; 1 destruction (~Token / ~Scope)
+  // unwind plans
+  struct Plan { int kind, arg; };  // 0 newest-first; 1 detach the token of attach #arg (1-based) out of order, then newest-first;
+                                   // 2 pop newest-first down to depth arg, attach again up to N, unwind newest-first
+  std::vector<Plan> plans;
+  plans.push_back({0, 0});
+  for (int k : {1, N / 4, N / 2, N - 1}) {
+    bool dup = k < 1 || k > N - 1;
+    for (auto &pl : plans) dup |= (pl.kind == 1 && pl.arg == k);
+    if (!dup) plans.push_back({1, k});
+  }
+  for (int d : {N / 4 + 1, N / 4, N / 4 - 1, 1, 0}) {
+    bool dup = d < 0 || d >= N;
+    for (auto &pl : plans) dup |= (pl.kind == 2 && pl.arg == d);
+    if (!dup) plans.push_back({2, d});
+  }
+  const Plan plan = plans[c.pick("deep-plan", (int)plans.size())];
+  static const char *const vname[] = {"distinct", "reattach-every-3rd", "scope"};
+  std::string prefix = vf::sfmt(" deep N=%d %s unwind-by=%s plan=%s", N, vname[variant], by ? "destruction" : "Detach(token)",
+                                plan.kind == 0 ? "newest-first" : plan.kind == 1 ? vf::sfmt("token#%d-out-of-order-then-newest-first", plan.arg).c_str()
+                                                                                 : vf::sfmt("pop-to-depth-%d-regrow-unwind", plan.arg).c_str());
+  reset_real_stack();
+  c.stage("deep:attach");
+  size_t max_capacity = 0;
+  {
+    StackWorld w;
+    std::vector<int> ident_for((size_t)N, -1);  // identity used by attach #i (variants 0 and 1): stable across re-growth
+    struct Held { nostd::unique_ptr<context::Token> tok; std::unique_ptr<trace::Scope> scope; int id; bool done; };
+    std::vector<Held> held;  // in attach order
+    // the real Stack: size, capacity and the identity of every frame
+    auto real_state = [&]() {
+      auto &st = real_stack();
+      if (st.capacity_ > max_capacity) max_capacity = st.capacity_;
+      std::string o = vf::sfmt("deep|n%zu c%zu [", st.size_, st.capacity_);
+      for (size_t pos = 0; pos < st.size_; ++pos) {
+        int id = w.identity_of(st.base_[pos]);
+        o += id < 0 ? std::string("? ") : id == 0 ? std::string("E ") : w.ids[id].name == "S" ? vf::sfmt("S%d ", (int)pos) : vf::sfmt("%s%lld%s ", w.ids[id].name.c_str(), (long long)w.ids[id].k, w.ids[id].span ? "s" : "");
+      }
+      return o + "]";
+    };
+    auto after = [&](const std::string &what) {
+      c.step();
+      check_current(c, w, prefix + ": " + what);
+      c.state(real_state());
+    };
+    auto attach = [&](int i) {  // the i-th frame (0-based)
+      c.stage("deep:attach");
+      if (variant == 2) {
+        Ident s;
+        s.name = "S";
+        s.span_owner = make_span(w.nspans++ % 200);
+        s.span = s.span_owner.get();
+        s.k = w.ids[w.top()].k;
+        std::unique_ptr<trace::Scope> sc(new trace::Scope(s.span_owner));
+        s.ctx = sc->token_->context_;
+        w.ids.push_back(s);
+        int id = (int)w.ids.size() - 1;
+        w.model.push_back(id);
+        held.push_back({nostd::unique_ptr<context::Token>(), std::move(sc), id, false});
+      } else {
+        if (ident_for[i] < 0) {
+          if (variant == 1 && i % 3 == 2) ident_for[i] = ident_for[i - 2];  // the same context again: matched most-recent-first
+          else {
+            Ident x;
+            x.name = "D";
+            x.k = i + 1;
+            x.ctx = Context("k", ContextValue(int64_t(i + 1)));
+            if (i % 2) { x.span_owner = make_span(i % 200); x.span = x.span_owner.get(); x.ctx = x.ctx.SetValue(trace::kSpanKey, x.span_owner); }
+            w.ids.push_back(x);
+            ident_for[i] = (int)w.ids.size() - 1;
+          }
+        }
+        int id = ident_for[i];
+        nostd::unique_ptr<context::Token> t = RuntimeContext::Attach(w.ids[id].ctx);
+        c.check(bool(t) && *t == w.ids[id].ctx, "C10:token-context", "Attach returned a null token or one that does not compare equal to the attached context");
+        w.model.push_back(id);
+        held.push_back({std::move(t), nullptr, id, false});
+      }
+      after(vf::sfmt("attach #%d (depth %zu)", i + 1, w.model.size()));
+    };
+    auto detach = [&](size_t t, bool keep_usable) {  // through the token / scope created by the t-th attach of this execution
+      Held &h = held[t];
+      int id = h.id;
+      std::string what;
+      if (h.scope) {
+        c.stage("deep:~Scope");
+        h.scope.reset();
+        w.model_detach(id);
+        h.done = true;
+        what = vf::sfmt("~Scope of attach #%zu", t + 1);
+      } else if (by == 1) {
+        c.stage("deep:~Token");
+        h.tok.reset();
+        w.model_detach(id);
+        h.done = true;
+        what = vf::sfmt("~Token of attach #%zu", t + 1);
+      } else {
+        c.stage("deep:Detach");
+        bool got = RuntimeContext::Detach(*h.tok);
+        bool found = w.model_detach(id);
+        what = vf::sfmt("Detach(token of attach #%zu) = %d", t + 1, int(got));
+        check_detach_result(c, got, found, w.same_identity(id, 0), prefix + ": " + what);
+        h.done = !keep_usable;  // an out-of-order token is detached a second time by the sweep (already detached: no effect)
+      }
+      after(what + vf::sfmt(" (depth %zu)", w.model.size()));
+    };
+    auto sweep_newest_first = [&](size_t down_to_depth) {
+      for (size_t t = held.size(); t > 0 && w.model.size() > down_to_depth; --t)
+        if (!held[t - 1].done) detach(t - 1, false);
+    };
+    auto sweep_all = [&]() {
+      for (size_t t = held.size(); t > 0; --t)
+        if (!held[t - 1].done) detach(t - 1, false);
+    };
+    check_current(c, w, prefix + ": start");
+    for (int i = 0; i < N; ++i) attach(i);
+    if (plan.kind == 1) {
+      detach((size_t)plan.arg - 1, true);
+    } else if (plan.kind == 2) {
+      sweep_newest_first((size_t)plan.arg);
+      for (int i = (int)w.model.size(); i < N; ++i) attach(i);
+    }
+    sweep_all();
+    c.stage("deep:end");
+    c.check(w.model.empty() && real_stack().size_ == 0, "C10:frames-left-after-all-tokens-died",
+            vf::sfmt("after%s: every token / scope was detached or destroyed but %zu frames remain attached (model %zu)", prefix.c_str(), real_stack().size_, w.model.size()));
+    held.clear();  // the kept tokens die on an empty stack
+    check_current(c, w, prefix + ": all tokens destroyed");
+  }
+  c.outcome("deep|" + prefix + vf::sfmt("|maxcap%zu", max_capacity));
+  if (N >= 7) c.sample("runtime stack," + prefix + vf::sfmt(": current context / span / Detach results equal the model after every attach and detach (capacity reached %zu)", max_capacity));
+}
+
 void setup(vf::Options &o) {
   o.split_depth = 3;
   o.deadline_s = o.thorough ? 900 : 100;
@@ -514,11 +671,12 @@ void setup(vf::Options &o) {
 }
 
 void run(vf::Ctx &c) {
-  // --part=N (development aid) runs a single part; registered tiers enumerate all three
+  // --part=N (development aid) runs a single part; registered tiers enumerate all four
   const std::string only = c.opt().get("part");
-  switch (only.empty() ? c.pick("part", 3) : atoi(only.c_str())) {
+  switch (only.empty() ? c.pick("part", 4) : atoi(only.c_str())) {
     case 0: run_family(c); break;
     case 1: run_stack(c); break;
+    case 3: run_deep(c); break;
     default: run_threads(c); break;
   }
 }
